@@ -97,6 +97,9 @@ def regenerate(ctx):
         if f not in os.listdir(new):
             os.remove(os.path.join(gen, f))
     ctx.add_obl('A.regenerate', True)
+    if ctx.tier == 'thorough':
+        rc, out = sh(['python3', ROOT + '/tools/extract_selftest.py'])
+        ctx.add_obl('A.extractor-selftest (mutated sources are noticed)', rc == 0, out[-1500:] if rc else '')
     ctx.facts = json.load(open(gen + '/facts.json'))
     ctx.generated_changed = changed
     return True
